@@ -431,18 +431,27 @@ def rule_dhdform(ctx):
     num, den = t.a[1], t.a[2]
     span = den.op == "bin" and den.a[0] == "-" and tm.show(den.a[1], 3).replace(" ", "") in ("reference_intervals[(-1,1)]",) and tm.show(den.a[2], 3).replace(" ", "") in ("reference_intervals[(0,0)]",)
     yield ob(R, f, "chord.directional_hamming_distance:normaliser", span, "the sum is divided by the reference span (last end - first start)")
-    need(num.op == "call" and call_name(num) in ("builtins.sum", "np.sum") and num.a[1] and num.a[1][0].op == "comp" and len(num.a[1][0].a[2]) == 1 and num.a[1][0].a[2][0] is ref, R, "directional_hamming_distance: the contributions are not accumulated in one pass over the reference intervals (vectorised forms are not read)")
-    comp = num.a[1][0]
-    row = tm.mk("iter", ref, comp.a[4])
-    st, en = tm.proj(row, 0), tm.proj(row, 1)
+    def _is_col(z, k):
+        return z.op == "sub" and z.a[0] is ref and z.a[1].op == "tuple" and len(z.a[1].a) == 2 and z.a[1].a[0].op == "slice" and tm.is_const(z.a[1].a[1], k)
+
+    ok_iter = num.op == "call" and call_name(num) in ("builtins.sum", "np.sum") and num.a[1] and num.a[1][0].op == "comp" and len(num.a[1][0].a[2]) == 1
+    comp = num.a[1][0] if ok_iter else None
+    it0 = comp.a[2][0] if ok_iter else None
+    st = en = None
+    if ok_iter and it0 is ref:
+        row = tm.mk("iter", ref, comp.a[4])
+        st, en = tm.proj(row, 0), tm.proj(row, 1)
+    elif ok_iter and it0.op == "call" and call_name(it0) == "builtins.zip" and len(it0.a[1]) == 2 and _is_col(it0.a[1][0], 0) and _is_col(it0.a[1][1], 1):
+        st, en = tm.mk("iter", it0.a[1][0], comp.a[4]), tm.mk("iter", it0.a[1][1], comp.a[4])
+    need(st is not None, R, "directional_hamming_distance: the contributions are not accumulated in one pass over the reference intervals (vectorised forms are not read)")
     elt = comp.a[1]
     good_c = elt.op == "bin" and elt.a[0] == "-" and elt.a[1].op == "bin" and elt.a[1].a[0] == "-" and elt.a[1].a[1] is en and elt.a[1].a[2] is st and elt.a[2].op == "call" and call_name(elt.a[2]) == "np.max" and elt.a[2].a[1][0].op == "call" and call_name(elt.a[2].a[1][0]) == "np.diff"
     yield ob(R, f, "chord.directional_hamming_distance:contribution", good_c, "each reference interval contributes (end - start) - max(diff(cut points))")
-    hs = [x for x in tm.walk(elt) if x.op == "call" and call_name(x) == "np.hstack" and x.a[1] and x.a[1][0].op in ("list", "tuple")]
+    hs = [x for x in tm.walk(elt) if x.op == "call" and call_name(x) in ("np.hstack", "np.concatenate") and x.a[1] and x.a[1][0].op in ("list", "tuple")]
     good_b = False
     good_f = False
     if len(hs) == 1:
-        parts = list(hs[0].a[1][0].a)
+        parts = [z.a[0] if z.op in ("list", "tuple") and len(z.a) == 1 else z for z in hs[0].a[1][0].a]
         good_b = len(parts) == 3 and parts[0] is st and parts[2] is en
         if len(parts) == 3 and parts[1].op == "sub":
             mask = parts[1].a[1]
